@@ -182,7 +182,8 @@ class Recorder:
         ds = eng.engine._data_store
         self._ls = [(ds, 'before_cursor_execute', self._before), (ds, 'after_cursor_execute', self._after),
                     (ds, 'commit', self._commit), (ds, 'rollback', self._rollback),
-                    (eng.engine._data_store_session_factory, 'after_commit', self._after_commit)]
+                    (eng.engine._data_store_session_factory, 'after_commit', self._after_commit),
+                    (ds, 'reset', self._pool_reset)]
         for tgt, name, fn in self._ls:
             sa_event.listen(tgt, name, fn)
         inner = eng.engine._process_operation
@@ -277,6 +278,16 @@ class Recorder:
         (self.cur['events'] if self.cur is not None else self.loose).append(('K',))     # the preceding COMMIT went through
         if self.cur is not None:
             self.cur['snaps'].append((len(self.cur['events']), 'after-commit', self.snap('after-commit')))
+
+    def _pool_reset(self, dbapi_connection, connection_record, reset_state):
+        # the pool's reset-on-return issues a DBAPI ROLLBACK that no engine-level 'rollback' event reports; it matters only
+        # when a transaction is still open at that moment (e.g. after a refused COMMIT followed by Session.rollback())
+        try:
+            open_tx = bool(dbapi_connection.in_transaction)
+        except Exception:
+            open_tx = False
+        if open_tx and not getattr(reset_state, 'transaction_was_reset', False):
+            (self.cur['events'] if self.cur is not None else self.loose).append(('R',))
 
     def _rollback(self, conn):
         tgt = self.cur['events'] if self.cur is not None else self.loose
@@ -1264,11 +1275,19 @@ def commit_failure_runs(ctx, cases, meta):
             d, it, events, dt, r = serve(step_fn, locked=True)
             gen.counter, gen.uids, gen.names, gen.derivable = state[0], state[1], state[2], state[3]
             kind = d['kind'] if d['kind'] != 'attr' else 'attr.' + d['how']
+            post = restart_view()          # what a restart at this moment finds (fresh engine on a copy of the file)
             st_after = conn_settings(eng)
+            was_refused_failed = it is not None and not kdrv.ok(it)
             if st_after['in_transaction']:
                 ctx.count('lock.transaction-left-open-after-refused-commit')
-            restart_server()
-            post = restart_view()
+                if was_refused_failed:
+                    # regression witness of the fixed finding C09-refused-commit-left-pending (/repo 52cb625)
+                    ctx.violation({'class': 'failed-item-left-pending', 'op': d['kind']},
+                                  {'operation': {k: v for k, v in d.items() if k != 'ws'}, 'answer': (it['status'], it['reason']),
+                                   'settings': st_after,
+                                   'how': 'second sqlite3 connection holds BEGIN; SELECT on the database file while the request is served'},
+                                  '%s was answered %s after its COMMIT was refused, but its writes are still pending in an open transaction '
+                                  'on the engine\'s pooled connection: the next request that commits makes them permanent' % (d['kind'], it['reason']))
             history.append({'step': idx, 'op': {k: v for k, v in d.items() if k != 'ws'}, 'commit': 'refused (database is locked)',
                             'answer': (it['status'], it['reason'], it['message']) if it else r['error'], 'seconds': round(dt, 2)})
             events = mark_failed_commits(events)
@@ -1298,12 +1317,35 @@ def commit_failure_runs(ctx, cases, meta):
                                                            cp.boolean(kdrv.ok(it)), coq_store(post['proj'])))
                     meta.append({'case': 'refused-commit', 'op': {k: v for k, v in desc.items() if k != 'ws'}, 'events': repr(events),
                                  'answer': history[-1]['answer'], 'history': history[-12:]})
-            # 2. undisturbed, so that the scenario goes on
+            # 2. the same request undisturbed, in the SAME server process (no restart in between): nothing of the refused
+            #    item may be applied by it
+            refused_failed = was_refused_failed and refused
             d, it, events, dt, r = serve(step_fn, locked=False)
             history.append({'step': idx, 'op': {k: v for k, v in d.items() if k != 'ws'}, 'commit': 'undisturbed',
                             'answer': (it['status'], it['reason'], it['message']) if it else r['error']})
             if it is not None:
                 gen.learn(d, it)
+            if refused_failed and it is not None:
+                post2 = restart_view()
+                live0 = {k for t, k, v in post['proj'][0] if t == 0}
+                live2 = {k for t, k, v in post2['proj'][0] if t == 0}
+                want = {'create': 1, 'register': 1, 'derive': 1, 'link-create': 1, 'keypair': 2, 'destroy': -1}.get(d['kind'], 0)
+                wit2 = {'history': history[-12:], 'before': post['proj'], 'after_both': post2['proj'],
+                        'how': 'request served while a second sqlite3 connection holds BEGIN; SELECT on the file (COMMIT refused, item answered '
+                               'as failed); lock released; the same request served again by the same process; restart'}
+                if kdrv.ok(it) and len(live2) - len(live0) != want:
+                    ctx.violation({'class': 'failed-item-applied-later', 'op': d['kind']}, wit2,
+                                  '%s was answered as failed when its COMMIT was refused, yet after the next successful request %d objects '
+                                  'appeared/disappeared instead of %d: the failed item was applied after all' % (kind, len(live2) - len(live0), want))
+                desc2 = describe(ctx, d, it, [e for e in events if e[0] not in ('F', 'K')], post['proj'], post2['proj'])
+                if desc2 is not None:
+                    # model: the refused run followed by the undisturbed one = the undisturbed one alone
+                    nev = [e for e in norm_positions(events)[0]]
+                    cases.append('CState %s %s [(%s, %s)]' % (coq_store(post['proj']), coq_op(desc2), cp.nat(len(nev) + 1), coq_store(post2['proj'])))
+                    meta.append({'case': 'state', 'coq_pre': coq_store(post['proj']), 'coq_op': coq_op(desc2), 'history': 'lock',
+                                 'op': {k: v for k, v in desc2.items() if k != 'ws'}, 'events': repr(events),
+                                 'note': 'undisturbed repetition after a refused COMMIT in the same process', 'steps': history[-6:]})
+                    ctx.count('lock.rerun-compared-with-model')
             check_settings(ctx, eng, 'after %s' % kind, cases, meta, history)
     finally:
         box['rec'].detach()
@@ -1389,6 +1431,124 @@ def fsize_injection(ctx):
     ctx.count('fsize.server-died', died)
 
 
+# ---------------------------------------------------------------------------------- restart fidelity
+def read_everything(eng, versions=((1, 2), (1, 4))):
+    """Through the LIVE engine: {uid: {'attrs@v': {attribute name: [values]}, 'value': digest of Get}} of every object Locate lists."""
+    r = eng.request([kdrv.locate()], user='alice')
+    uids = sorted(int(u) for u in (r['items'][0]['payload'].get('unique_identifiers') or [])) if r['items'] and kdrv.ok(r['items'][0]) else None
+    out = {}
+    for u in uids or []:
+        rec_ = {}
+        for v in versions:
+            a = kdrv.get_all_attributes(eng, str(u), version=v)
+            rec_['attributes under KMIP %d.%d' % v] = None if a is None else {k: [json.dumps(x, sort_keys=True, default=str) for x in vals]
+                                                                             for k, vals in sorted(a.items())}
+        g = eng.request([kdrv.get(str(u))], user='alice')['items'][0]
+        rec_['value'] = hashlib.sha1(json.dumps(g['payload'], sort_keys=True, default=str).encode()).hexdigest()[:12] if kdrv.ok(g) else (g['status'], g['reason'])
+        out[u] = rec_
+    return uids, out
+
+
+def restart_fidelity(ctx, name, rng, scripted):
+    """Every acknowledged operation is still in effect after a restart: the FULL attribute state GetAttributes reports
+    (names, object groups, application specific information, masks, state, dates, ...) and the value of every object are
+    read through the live engine, the server is stopped and a new KmipEngine is started on the same file (twice), and
+    everything is read again.  Objects carry 0, 1 and several instances of each multi-valued attribute and are created in an
+    order that makes the ids of shared value rows (object_groups, app_specific_info) differ from object identifiers."""
+    eng = kdrv.Engine(workdir=str(ctx.work / name))
+    history = []
+    asi = lambda ns, i: kdrv.attr(AT.APPLICATION_SPECIFIC_INFORMATION, {'application_namespace': ns, 'application_data': 'data-' + ns}, i)
+    grp = lambda g, i: kdrv.attr(AT.OBJECT_GROUP, g, i)
+    counter = [0]
+
+    def do(label, items, version=(1, 2)):
+        r = eng.request(items, version=version, user='alice')
+        res = [(i['status'], i['reason'], kdrv.first_uid(i)) for i in r['items']]
+        history.append({'request': label, 'answer': res if r['error'] is None else r['error']})
+        return r
+
+    def make(n_names, n_groups, n_asi, kind='create'):
+        counter[0] += 1
+        k = counter[0]
+        names = ['obj%d-name%d' % (k, j) for j in range(n_names)]
+        gpool = ['alpha', 'beta', 'gamma']
+        extra = [grp(gpool[(k + j) % 3], j) for j in range(n_groups)] + [asi('ns%d' % ((k + j) % 3), j) for j in range(n_asi)]
+        if kind == 'create':
+            item = kdrv.create(names=names, extra=extra)
+        else:
+            ot = rng.choice([OT.SECRET_DATA, OT.OPAQUE_DATA, OT.CERTIFICATE])
+            attrs = ([kdrv.attr(AT.CRYPTOGRAPHIC_USAGE_MASK, [MASK.VERIFY])] if ot != OT.OPAQUE_DATA else []) + \
+                [kdrv.attr(AT.NAME, kdrv.name_value(x), j) for j, x in enumerate(names)] + extra
+            item = kdrv.register(ot, attrs=attrs)
+        r = do('%s with %d names, %d object groups %s, %d application specific informations' % (
+            kind, n_names, n_groups, [gpool[(k + j) % 3] for j in range(n_groups)], n_asi), [item])
+        return kdrv.first_uid(r['items'][0]) if r['items'] and kdrv.ok(r['items'][0]) else None
+
+    try:
+        if scripted:
+            shapes = [(0, 0, 0), (1, 0, 0), (2, 0, 0), (1, 1, 1), (0, 2, 2), (2, 2, 0), (0, 0, 2), (1, 1, 0), (0, 1, 1), (3, 3, 3)]
+        else:
+            shapes = [(rng.randint(0, 2), rng.choice([0, 0, 1, 2, 3]), rng.choice([0, 0, 1, 2])) for _ in range(rng.randint(6, 12))]
+        uids = []
+        for i, (a, b, c) in enumerate(shapes):
+            u = make(a, b, c, 'create' if scripted or rng.random() < 0.7 else 'register')
+            if u:
+                uids.append(u)
+            if uids and (i % 3 == 2 if scripted else rng.random() < 0.35):
+                v = rng.choice(uids)
+                what = rng.choice(['activate', 'revoke', 'destroy', 'delete-group', 'modify-name'])
+                if what == 'activate':
+                    do('Activate %s' % v, [kdrv.activate(v)])
+                elif what == 'revoke':
+                    do('Revoke %s (key compromise)' % v, [kdrv.revoke(v, code=enums.RevocationReasonCode.KEY_COMPROMISE)])
+                elif what == 'destroy':
+                    do('Destroy %s' % v, [kdrv.destroy(v)])
+                    uids.remove(v)
+                elif what == 'delete-group':
+                    do('DeleteAttribute %s Object Group 0' % v, [kdrv.delete_attribute_v1(v, 'Object Group', 0)])
+                else:
+                    do('ModifyAttribute %s Name 0' % v, [kdrv.modify_attribute_v1(v, kdrv.attr(AT.NAME, kdrv.name_value('renamed-%d' % i), 0))])
+        listed0, before = read_everything(eng)
+        for round_ in (1, 2):
+            eng.engine._data_store.dispose()
+            try:
+                eng.restart()
+            except Exception as e:  # noqa
+                ctx.violation({'class': 'unreadable-or-partial', 'op': 'restart', 'cut': 'restart'}, {'history': history, 'restart': round_},
+                              'the server cannot be restarted on its own database: %r' % (e,))
+                return
+            listed1, after = read_everything(eng)
+            ctx.count('restart.objects-compared', len(before))
+            ctx.case_seen((name, round_, json.dumps(after, sort_keys=True, default=str)), nontrivial=True)
+            if listed1 != listed0:
+                ctx.violation({'class': 'acknowledged-not-durable', 'op': 'restart', 'what': 'objects-listed'},
+                              {'history': history, 'restart': round_, 'listed_before': listed0, 'listed_after': listed1},
+                              'restart %d changes the set of objects Locate lists: %s -> %s' % (round_, listed0, listed1))
+                return
+            for u in sorted(before):
+                if before[u] != after.get(u):
+                    diffs = []
+                    for k in before[u]:
+                        b, a = before[u][k], (after.get(u) or {}).get(k)
+                        if b != a:
+                            if isinstance(b, dict) and isinstance(a, dict):
+                                for an in sorted(set(b) | set(a)):
+                                    if b.get(an) != a.get(an):
+                                        diffs.append({'view': k, 'attribute': an, 'before_restart': b.get(an), 'after_restart': a.get(an)})
+                            else:
+                                diffs.append({'view': k, 'before_restart': b, 'after_restart': a})
+                    d0 = diffs[0] if diffs else {}
+                    ctx.violation({'class': 'acknowledged-not-durable', 'op': 'restart', 'attribute': d0.get('attribute', 'value')},
+                                  {'history': history, 'restart': round_, 'object': u, 'differences': diffs[:8],
+                                   'how': 'run the history against a KmipEngine, GetAttributes/Get everything, dispose the engine, start a new '
+                                          'KmipEngine on the same database file, read again'},
+                                  'after restart %d object %s no longer has what was acknowledged: %s was %s, is now %s' % (
+                                      round_, u, d0.get('attribute', 'its value'), d0.get('before_restart'), d0.get('after_restart')))
+                    return
+    finally:
+        eng.close()
+
+
 # ---------------------------------------------------------------------------------- check
 def run(ctx):
     quick = ctx.tier == 'quick'
@@ -1418,6 +1578,9 @@ def run(ctx):
     for ot in kdrv.STORED_TYPES:
         cases.append('CClass %s [%s]' % (cp.z(ot.value), '; '.join(cp.z(TABLES[t]) for t in class_tables_of(ot))))
         meta.append({'case': 'class-tables', 'object_type': ot.name, 'tables': class_tables_of(ot)})
+    restart_fidelity(ctx, 'restart0', ctx.subrng('restart/0'), scripted=True)
+    for k in range(1, 4 if quick else 16):
+        restart_fidelity(ctx, 'restart%d' % k, ctx.subrng('restart/%d' % k), scripted=False)
     n_hist, n_steps = (8, 30) if quick else (24, 50)
     c, m = run_history(ctx, 'hscript', 0, ctx.subrng('history/script'), scripted=True)
     cases += c
